@@ -3,6 +3,8 @@
 package frugal
 
 import (
+	"io"
+
 	"github.com/apache/thrift/lib/go/thrift"
 )
 
@@ -64,6 +66,18 @@ func VerifExecuteFrame(t FTransport, frame []byte) error {
 		return x.registry.Execute(frame)
 	}
 	return nil
+}
+
+// VerifReadHeader is readHeader: version byte, size, pairs from a stream.
+func VerifReadHeader(r io.Reader) (map[string]string, error) { return readHeader(r) }
+
+// VerifUnmarshalFrame is unmarshalFrame (frame with its 4-byte size prefix).
+func VerifUnmarshalFrame(frame []byte) (map[string]string, []byte, error) {
+	c, err := unmarshalFrame(frame)
+	if err != nil || c == nil {
+		return nil, nil, err
+	}
+	return c.headers, c.payload, nil
 }
 
 func VerifNewRegistry() interface{} { return newFRegistry() }
